@@ -44,10 +44,11 @@ Proof.
   replace (ba_contents a + 36 + 4) with (ba_contents a + 0x28) by lia. known. reflexivity.
 Qed.
 
-Lemma bch_texture_ok m i t : bch_entry f a i t ->
+Lemma bch_texture_ok m i t : bch_entry f a i t -> f32_exact t ->
   bch_texture m f (hdr_of a) (ba_table a + ba_contents a) i = decode_tex m t.
 Proof.
-  intros (dest & c0 & noff & d0 & Hdest & Hc0 & Hnoff & Hname & Hh & Hw & Hd0 & Hfmt & Hd & (Hv & Hsz & _)).
+  intros (dest & c0 & noff & d0 & Hdest & Hc0 & Hnoff & Hname & Hh & Hw & Hd0 & Hfmt & Hd & (Hv & Hsz & _)) Hx.
+  unfold f32_exact in Hx.
   pose proof (u32_at_le _ _ _ _ Hdest). pose proof (u32_at_le _ _ _ _ Hc0). pose proof (u32_at_le _ _ _ _ Hnoff).
   pose proof (cstr_atN_bound _ _ _ Hname). pose proof (u16_at_le _ _ _ _ Hh). pose proof (u32_at_le _ _ _ _ Hd0).
   pose proof (sliceN_bound _ _ _ _ Hd).
@@ -59,21 +60,22 @@ Proof.
   rewrite add32_ok by lia. cbn [bind]. rewrite (read_name_cstr _ _ _ _ Hname Hv). cbn [bind].
   replace (c0 + ba_commands a) with (ba_commands a + c0) by lia. do 3 known.
   rewrite add32_ok by lia. cbn [bind]. known.
-  replace (d0 + ba_raw a) with (ba_raw a + d0) by lia. rewrite <- Hsz, (rd_exact_some _ _ _ Hd). cbn [bind].
+  replace (d0 + ba_raw a) with (ba_raw a + d0) by lia. rewrite Hx, <- Hsz, (rd_exact_some _ _ _ Hd). cbn [bind].
   unfold decode_tex. reflexivity.
 Qed.
 
 Lemma bch_loop_ok m : forall texs i fuel, (length texs <= fuel)%nat ->
-  (forall j t, nth_error texs j = Some t -> bch_entry f a (i + N.of_nat j) t) ->
+  (forall j t, nth_error texs j = Some t -> bch_entry f a (i + N.of_nat j) t) -> Forall f32_exact texs ->
   bch_loop fuel m f (hdr_of a) (ba_table a + ba_contents a) i (i + N.of_nat (length texs)) = decode_all (decode_tex m) texs.
 Proof.
-  induction texs as [|t r IH]; intros i fuel Hfuel H.
+  induction texs as [|t r IH]; intros i fuel Hfuel H Hx.
   - cbn [length]. rewrite N.add_0_r. destruct fuel; cbn [bch_loop]; rewrite N.leb_refl; reflexivity.
-  - destruct fuel as [|fuel]; [cbn in Hfuel; lia|]. cbn [length] in *. cbn [bch_loop].
+  - inversion Hx as [|? ? Hx0 Hxr]; subst.
+    destruct fuel as [|fuel]; [cbn in Hfuel; lia|]. cbn [length] in *. cbn [bch_loop].
     destruct (N.leb_spec (i + N.of_nat (S (length r))) i) as [?|_]; [lia|].
-    rewrite (bch_texture_ok m i t) by (specialize (H 0%nat t eq_refl); rewrite N.add_0_r in H; exact H).
+    rewrite (bch_texture_ok m i t) by (try exact Hx0; specialize (H 0%nat t eq_refl); rewrite N.add_0_r in H; exact H).
     replace (i + N.of_nat (S (length r))) with (i + 1 + N.of_nat (length r)) by lia.
-    rewrite IH; [reflexivity | lia |].
+    rewrite IH; [reflexivity | lia | | exact Hxr].
     intros j t' Hj. specialize (H (S j) t' Hj). replace (i + 1 + N.of_nat j) with (i + N.of_nat (S j)) by lia. exact H.
 Qed.
 End BchFile.
@@ -89,13 +91,14 @@ Proof.
   apply u32_at_le in Hdest. unfold lenN in Hdest. lia.
 Qed.
 
-Theorem read_bch_correct : forall m f texs, conforms_bch f texs -> read_bch m f = decode_all (decode_tex m) texs.
+Theorem read_bch_correct : forall m f texs, conforms_bch f texs -> Forall f32_exact texs ->
+  read_bch m f = decode_all (decode_tex m) texs.
 Proof.
-  intros m f texs (Hsmall & a & Hhdr & Htab & Hn & Htle & Hent).
+  intros m f texs (Hsmall & a & Hhdr & Htab & Hn & Htle & Hent) Hx.
   unfold read_bch. rewrite (bch_header_ok f a Hhdr) by (apply u32_at_le in Hn; lia). cbn [bind hdr_of bh_contents].
   rewrite (bch_table_ok f a Hsmall m Htab _ Hn Htle). cbn [bind].
   pose proof (bch_loop_ok f a Hsmall m texs 0 (S (length f)) (bch_fuel f a texs Hent)) as E.
-  rewrite N.add_0_l in E. apply E. intros j t Hj. rewrite N.add_0_l. apply Hent, Hj.
+  rewrite N.add_0_l in E. apply E; [|exact Hx]. intros j t Hj. rewrite N.add_0_l. apply Hent, Hj.
 Qed.
 
 (* ---------------------------------------------------------------- prefixes *)
@@ -124,10 +127,11 @@ Hypothesis Htab : u32_at LE (g ++ r) (ba_contents a + 0x24) = Some (ba_table a).
 Definition bch_cut (i : N) (t : tex) : Prop :=
   exists off, bch_payload_at (g ++ r) i off /\ cuts (lenN g) off (t_data t).
 
-Lemma bch_texture_prefix i t : bch_entry (g ++ r) a i t -> no_panic (decode_tex m t) ->
+Lemma bch_texture_prefix i t : bch_entry (g ++ r) a i t -> f32_exact t -> no_panic (decode_tex m t) ->
   good (bch_cut i t) (bch_texture m g (hdr_of a) (ba_table a + ba_contents a) i).
 Proof.
-  intros (dest & c0 & noff & d0 & Hdest & Hc0 & Hnoff & Hname & Hh & Hw & Hd0 & Hfmt & Hd & (Hv & Hsz & _)) Hdec.
+  intros (dest & c0 & noff & d0 & Hdest & Hc0 & Hnoff & Hname & Hh & Hw & Hd0 & Hfmt & Hd & (Hv & Hsz & _)) Hx Hdec.
+  unfold f32_exact in Hx.
   pose proof (u32_at_le _ _ _ _ Hdest). pose proof (u32_at_le _ _ _ _ Hc0). pose proof (u32_at_le _ _ _ _ Hnoff).
   pose proof (cstr_atN_bound _ _ _ Hname). pose proof (u16_at_le _ _ _ _ Hh). pose proof (u32_at_le _ _ _ _ Hd0).
   pose proof (sliceN_bound _ _ _ _ Hd).
@@ -142,7 +146,7 @@ Proof.
   replace (c0 + ba_commands a) with (ba_commands a + c0) by lia.
   eapply (good_rd16 g r); [exact Hh|]. eapply (good_rd16 g r); [exact Hw|]. eapply (good_rd32 g r); [exact Hd0|].
   apply good_add32; [lia|]. eapply (good_rd32 g r); [exact Hfmt|].
-  replace (d0 + ba_raw a) with (ba_raw a + d0) by lia. rewrite <- Hsz.
+  replace (d0 + ba_raw a) with (ba_raw a + d0) by lia. rewrite Hx, <- Hsz.
   apply (good_exact g r); [exact Hd| |].
   - intros (off & (ca' & cma' & ra' & toff' & dest' & c0' & d0' & E1 & E2 & E3 & E4 & E5 & E6 & E7 & ->) & Hcuts).
     assert (ca' = ba_contents a) by congruence. subst ca'. assert (cma' = ba_commands a) by congruence. subst cma'.
@@ -154,19 +158,19 @@ Qed.
 
 Lemma bch_loop_prefix : forall texs i fuel,
   (forall j t, nth_error texs j = Some t -> bch_entry (g ++ r) a (i + N.of_nat j) t) ->
-  Forall (fun t => no_panic (decode_tex m t)) texs ->
+  Forall f32_exact texs -> Forall (fun t => no_panic (decode_tex m t)) texs ->
   good (exists j t, nth_error texs j = Some t /\ bch_cut (i + N.of_nat j) t)
        (bch_loop fuel m g (hdr_of a) (ba_table a + ba_contents a) i (i + N.of_nat (length texs))).
 Proof.
-  induction texs as [|t rr IH]; intros i fuel H Hdec.
+  induction texs as [|t rr IH]; intros i fuel H Hx Hdec.
   - cbn [length]. rewrite N.add_0_r. split.
     + destruct fuel; cbn [bch_loop]; rewrite N.leb_refl; exact I.
     + intros ([|j] & t & Hj & _); discriminate.
-  - inversion Hdec as [|? ? Hd0 Hdr]; subst. cbn [length].
+  - inversion Hdec as [|? ? Hd0 Hdr]; subst. inversion Hx as [|? ? Hx0 Hxr]; subst. cbn [length].
     destruct fuel as [|fuel]; cbn [bch_loop];
       (destruct (N.leb_spec (i + N.of_nat (S (length rr))) i) as [?|_]; [lia|]); [apply good_err; exact I|].
     replace (i + N.of_nat (S (length rr))) with (i + 1 + N.of_nat (length rr)) by lia.
-    eapply good_loop_step; [| apply (bch_texture_prefix i t); [|exact Hd0] | apply (IH (i + 1) fuel); [|exact Hdr]].
+    eapply good_loop_step; [| apply (bch_texture_prefix i t); [|exact Hx0|exact Hd0] | apply (IH (i + 1) fuel); [|exact Hxr|exact Hdr]].
     + intros ([|j] & t' & Hj & Hc); cbn [nth_error] in Hj.
       * inversion Hj; subst. left. rewrite N.add_0_r in Hc. exact Hc.
       * right. exists j, t'. split; [exact Hj|]. replace (i + 1 + N.of_nat j) with (i + N.of_nat (S j)) by lia. exact Hc.
@@ -175,13 +179,13 @@ Proof.
 Qed.
 End BchPrefix.
 
-Theorem bch_prefix : forall m f texs k, conforms_bch f texs -> Forall (fun t => no_panic (decode_tex m t)) texs ->
-  k < lenN f ->
+Theorem bch_prefix : forall m f texs k, conforms_bch f texs -> Forall f32_exact texs ->
+  Forall (fun t => no_panic (decode_tex m t)) texs -> k < lenN f ->
   no_panic (read_bch m (firstn (N.to_nat k) f)) /\
   (forall i t off, nth_error texs i = Some t -> bch_payload_at f (N.of_nat i) off -> cuts k off (t_data t) ->
      is_err (read_bch m (firstn (N.to_nat k) f))).
 Proof.
-  intros m f texs k Hc Hdec Hk.
+  intros m f texs k Hc Hx Hdec Hk.
   set (g := firstn (N.to_nat k) f). set (r := skipn (N.to_nat k) f).
   assert (Ef : f = g ++ r) by (symmetry; apply firstn_skipn).
   assert (Lg : lenN g = k) by (apply lenN_firstn; lia).
@@ -199,7 +203,7 @@ Proof.
   2:{ split; [apply is_err_no_panic|intros ? ? ? _ _ _]; apply is_err_bind, E2. }
   cbn [bind]. rewrite Ef in Hsmall, Hca, Hcma, Hra, Htab.
   pose proof (bch_loop_prefix g r a m Hsmall Hca Hcma Hra Htab texs 0 (S (length g))) as P.
-  rewrite N.add_0_l in P. fold (hdr_of a). destruct P as (Pn & Pc); [|exact Hdec|].
+  rewrite N.add_0_l in P. fold (hdr_of a). destruct P as (Pn & Pc); [|exact Hx|exact Hdec|].
   { intros j t Hj. rewrite N.add_0_l, <- Ef. apply Hent, Hj. }
   split; [exact Pn|]. intros i t off Hi Hpay Hcuts. apply Pc.
   exists i, t. split; [exact Hi|]. exists off. rewrite N.add_0_l, <- Ef, Lg. split; assumption.
